@@ -1093,8 +1093,21 @@ def _argsorted(lst):
 
 def sort(x, axis=-1):
     a = _obj(x)
+    if a.ndim == 2:
+        out = _np.empty(a.shape, dtype=object)
+        if axis in (-1, 1):
+            for i in range(a.shape[0]):
+                for j, v in enumerate(_sorted(list(a[i]))):
+                    out[i, j] = v
+        elif axis == 0:
+            for j in range(a.shape[1]):
+                for i, v in enumerate(_sorted(list(a[:, j]))):
+                    out[i, j] = v
+        else:
+            raise ModelGap("sort axis=%r" % (axis,))
+        return NDArr(out)
     if a.ndim != 1:
-        raise ModelGap("sort ndim>1")
+        raise ModelGap("sort ndim>2")
     return NDArr(_obj(_sorted(list(a)))) if a.size else NDArr(a.copy())
 
 
